@@ -456,30 +456,56 @@ def g_godambe(s, P, light=True):
     data = P.add('S.scale', model, s.choice([1.0, 3.0])) if s.chance(0.3) else P.add('mk_spectrum', s.randint(0, 3), [n + 1 for n in ns], 0.0, False, None, 8.0)
     boots = [P.add('mk_spectrum', 10 + b, [n + 1 for n in ns], 0.0, False, None, 8.0) for b in range(s.choice([3, 4, 5]))]
     eps = s.choice([0.01, 0.01, 0.001])
+    arr = s.chance(0.4)
+    W = (lambda v: {'$arr': v}) if arr else (lambda v: v)
     for _ in range(s.randint(1, 3)):
         r = s.random()
         if r < 0.25:
-            P.add('G.FIM_uncert', f, pts, p0, data, **dict(multinom=multinom, eps=eps, log=s.chance(0.3)))
+            P.add('G.FIM_uncert', f, pts, W(p0), data, **dict(multinom=multinom, eps=eps, log=s.chance(0.3)))
         elif r < 0.5:
-            P.add('G.GIM_uncert', f, pts, boots, p0, data, **dict(multinom=multinom, eps=eps, log=s.chance(0.3)))
+            P.add('G.GIM_uncert', f, pts, boots, W(p0), data, **dict(multinom=multinom, eps=eps, log=s.chance(0.3)))
         elif r < 0.7 and k >= 2:
             nested = sorted(s.sample(list(range(k)), s.randint(1, k - 1)))
             p0n = list(p0)
             for i in nested:
                 p0n[i] = s.choice([0, 0, 1.0])
-            P.add('G.LRT_adjust', f, pts, boots, p0n, data, nested, **dict(multinom=multinom, eps=eps))
+            P.add('G.LRT_adjust', f, pts, boots, W(p0n), data, nested, **dict(multinom=multinom, eps=eps))
         elif r < 0.85 and k >= 2:
             nested = [s.randrange(k)]
             p0n = list(p0)
             p0n[nested[0]] = s.choice([0, 1.0])
-            P.add('G.score_stat', f, pts, boots, p0n, data, nested, **dict(multinom=multinom, eps=eps))
+            P.add('G.score_stat', f, pts, boots, W(p0n), data, nested, **dict(multinom=multinom, eps=eps))
         elif k >= 2:
             nested = [s.randrange(k)]
             p0n = list(p0)
             p0n[nested[0]] = s.choice([0, 1.0])
-            P.add('G.Wald_stat', f, pts, boots, p0n, data, nested, p0, **dict(multinom=multinom, eps=eps))
+            P.add('G.Wald_stat', f, pts, boots, W(p0n), data, nested, W(p0), **dict(multinom=multinom, eps=eps))
         else:
             P.add('G.sum_chi2_ppf', s.choice([0.5, [0.0, 1.0, 2.5]]), s.choice([[0, 1], [0.5, 0.5], [0.25, 0.5, 0.25]]))
+    return P
+
+
+def g_godambe_neg(s, P):
+    """affine model with a large offset so that a coefficient may be negative; consecutive calls differ only in one
+    parameter drawn from a tiny pool containing -1.0 and -2.0 (distinct floats that CPython hashes alike)"""
+    k = s.choice([2, 3])
+    ns = s.choice([[6], [8]])
+    seed = s.choice([0, 1])
+    multinom = s.chance(0.5)
+    f = {'$fn': 'model', 'id': 'linear', 'args': [k, seed, True, 14.0]}
+    base = [s.choice([0.5, 1.0, 2.0]) for _ in range(k)]
+    j = s.randrange(k)
+    pts = [10]
+    data = P.add('mk_spectrum', s.randint(0, 3), [n + 1 for n in ns], 0.0, False, None, 30.0)
+    boots = [P.add('mk_spectrum', 10 + b, [n + 1 for n in ns], 0.0, False, None, 30.0) for b in range(k + 3)]
+    vals = s.sample([-1.0, -2.0, -0.5, 1.0], s.randint(2, 3))
+    for v in vals:
+        p0 = list(base)
+        p0[j] = v
+        if s.chance(0.5):
+            P.add('G.FIM_uncert', f, pts, p0, data, multinom=multinom, eps=0.01)
+        else:
+            P.add('G.GIM_uncert', f, pts, boots, p0, data, multinom=multinom, eps=0.01)
     return P
 
 
@@ -518,7 +544,7 @@ def g_interference(s, P):
 
 TEMPLATES = [
     (g_chain1d, 10), (g_chain2d, 12), (g_chain3d, 7), (g_chain4d, 6), (g_chain5d, 2), (g_spectrum, 10), (g_numerics, 7),
-    (g_lowpass, 4), (g_opthelp, 4), (g_inbreeding, 4), (g_extrap, 5), (g_demes, 6), (g_godambe, 8), (g_godambe_real, 2),
+    (g_lowpass, 4), (g_opthelp, 4), (g_inbreeding, 4), (g_extrap, 5), (g_demes, 6), (g_godambe, 8), (g_godambe_neg, 2), (g_godambe_real, 2),
 ]
 
 
